@@ -188,6 +188,10 @@ class Prop:
     def check(self, case: dict, col: Collector) -> None:
         raise NotImplementedError
 
+    def timeouts(self, case: dict) -> tuple[float, float]:
+        """(soft, hard) time budget for one case."""
+        return self.soft_timeout, self.hard_timeout
+
     def on_timeout(self, case: dict, col: Collector, hard: bool) -> None:
         """A case exceeded its time budget. Default: counted; only C12 judges it."""
         col.count("hard_timeouts" if hard else "soft_timeouts")
